@@ -30,11 +30,11 @@ CLAIM = {
             "handed to backward are f, y-f and grad_y f. Accuracy of iterative backward solves is not decided.",
     "note": "Trusted: contracts of jac (C17) and solve (C01), stub autograd, user function differentiable and pure in "
             "(y, params, object tensors), real inner product, floats as reals, z3. The separator round trip is "
-            "exhaustive over all tensor/non-tensor/no-grad patterns up to length 4 (bounded in the number of parameters); the "
-            "separation itself (TensorNonTensorSeparator.__init__: which parameters go to which list, at which positions, in which "
-            "order, the counts and the all-tensors flag) is proved for EVERY number of parameters from verification conditions "
-            "generated from the function's AST (unit separator_any_length; the counting function used by the invariant is a "
-            "recursive definition).",
+            "ALSO proved for EVERY number of parameters from verification conditions generated from the functions' own ASTs (unit "
+            "separator_any_length, pydv.intvc): __init__ (which parameters go to which list, at which positions, in which order, "
+            "counts, all-tensors flag) and reconstruct_params (both zip loops cut: every position receives the new tensor, resp. the "
+            "given or stored other value, that belongs there; all-tensors shortcut; ValueError exactly for a wrong total length); the "
+            "counting function used by the invariants is a recursive definition. The exhaustive enumeration up to length 4 is kept.",
     "design_ref": "DESIGN.md section 6 C04",
 }
 
@@ -473,7 +473,7 @@ def unit_separator_any_length():
 
     def run():
         c = ctx()
-        seq = intvc.InputSeq("params")
+        seq = intvc.InputSeq("params", tag=1)
         varonly = z3.Bool("varonly")
         isT = z3.Function("isinstance[torch.Tensor]<params>", I, B)
         rg = z3.Function("requires_grad<params>", I, B)
@@ -496,7 +496,18 @@ def unit_separator_any_length():
                  z3.ForAll([j], z3.Implies(z3.And(0 <= j, j < i, z3.Not(crit(j))),
                                            z3.And(j - rank(j) < i - rank(i), z3.Select(NI.arr, j - rank(j)) == j,
                                                   z3.Select(NP.arr, j - rank(j)) == j)))),
+                ("every_listed_index_is_a_position_of_its_kind", listed(TI, NI, i)),
             ]
+
+        def listed(TI, NI, i):
+            k = z3.Int("k")
+            return z3.And(
+                z3.ForAll([k], z3.Implies(z3.And(0 <= k, k < TI.len),
+                                          z3.And(0 <= z3.Select(TI.arr, k), z3.Select(TI.arr, k) < i, crit(z3.Select(TI.arr, k)),
+                                                 rank(z3.Select(TI.arr, k)) == k))),
+                z3.ForAll([k], z3.Implies(z3.And(0 <= k, k < NI.len),
+                                          z3.And(0 <= z3.Select(NI.arr, k), z3.Select(NI.arr, k) < i, z3.Not(crit(z3.Select(NI.arr, k))),
+                                                 z3.Select(NI.arr, k) - rank(z3.Select(NI.arr, k)) == k))))
 
         def inv_named(S, i, n):
             # the counting function is defined, not proved: its axioms are hypotheses of every step (added through the first clause,
@@ -518,6 +529,7 @@ def unit_separator_any_length():
                                                   z3.And(0 <= j - rank(j), j - rank(j) < n - rank(n), z3.Select(NP.arr, j - rank(j)) == j,
                                                          z3.Select(NI.arr, j - rank(j)) == j))))),
                 ("every_parameter_is_in_exactly_one_of_the_two_lists", TP.len + NP.len == n),
+                ("every_listed_index_is_a_position_of_its_kind", listed(TI, NI, n)),
                 ("alltensors_flag", S["self.alltensors"] == (rank(n) == n)),
             ]
 
@@ -528,6 +540,60 @@ def unit_separator_any_length():
         vc = intvc.LoopVC(Sep.__init__, bind, inv_named, post, name="TensorNonTensorSeparator.__init__", definitions=defs)
         _record(c, vc.run())
         c.check("TensorNonTensorSeparator.__init__.loop_body_paths_covered", vc.paths == 2, detail="%d paths" % vc.paths)
+        # ---- reconstruct_params, from the class invariant established by __init__ (its postcondition) -------------------------------
+        n = z3.Int("n")
+        A = lambda nm: z3.Const(nm, z3.ArraySort(I, I))
+        S = {"self.nparams": n, "self.alltensors": rank(n) == n,
+             "self.tensor_idxs": intvc.SList(rank(n), A("TI")), "self.tensor_params": intvc.SList(rank(n), A("TP"), of=seq),
+             "self.nontensor_idxs": intvc.SList(n - rank(n), A("NI")), "self.nontensor_params": intvc.SList(n - rank(n), A("NP"), of=seq)}
+        class_inv = [f for _, f in post(S, n)] + [n == seq.len, n >= 0,
+                                                  z3.ForAll([j], z3.Implies(z3.And(0 <= j, j <= n), z3.And(0 <= rank(j), rank(j) <= j)))]
+        newT = intvc.InputSeq("new_tensors", tag=0)
+        newN = intvc.InputSeq("new_others", tag=1)
+        TIx, NIx = S["self.tensor_idxs"], S["self.nontensor_idxs"]
+
+        other_code = [None]        # code of the value that belongs at a non-tensor position j
+
+        def placed(P, upto_others, upto_tensors):
+            return z3.And(P.len == n,
+                          z3.ForAll([j], z3.Implies(z3.And(0 <= j, j < n, z3.Not(crit(j)), j - rank(j) < upto_others),
+                                                    z3.Select(P.arr, j) == other_code[0](j))),
+                          z3.ForAll([j], z3.Implies(z3.And(0 <= j, j < n, crit(j), rank(j) < upto_tensors),
+                                                    z3.Select(P.arr, j) == newT.code(rank(j)))))
+
+        def inv1(E, i, m):
+            return [("other_values_placed_so_far", placed(E["params"], i, z3.IntVal(0)))]
+
+        def inv2(E, i, m):
+            return [("all_other_values_and_the_tensors_so_far_placed", placed(E["params"], n - rank(n), i))]
+
+        def post_r(E, outcome):
+            if outcome == "raise":
+                return [("raises_ValueError_only_for_a_wrong_total_length", z3.BoolVal(E.get("__raised") == "ValueError")),
+                        ("raises_ValueError_only_for_a_wrong_total_length",
+                         newT.len + (newN.len if E.get("nontensor_params") is newN else n - rank(n)) != n)]
+            r = E.get("__return")
+            if r is newT:
+                return [("all_tensors:the_given_tensors_are_returned_as_they_are", rank(n) == n)]
+            if not isinstance(r, intvc.SList):
+                return [("returns_a_list", z3.BoolVal(False))]
+            return [("every_position_holds_the_new_tensor_resp_the_other_value_that_belongs_there", placed(r, n - rank(n), rank(n)))]
+        for which, others in (("other_values_given", newN), ("other_values_as_stored", None)):
+            env = dict(S, tensor_params=newT, nontensor_params=others)
+            if others is None:
+                # default: the values stored at construction, i.e. the original objects go back to their own positions
+                other_code[0] = lambda jj: seq.code(jj)
+                extra = []
+            else:
+                other_code[0] = lambda jj: newN.code(jj - rank(jj))
+                extra = [newN.len >= 0]
+            nm = "TensorNonTensorSeparator.reconstruct_params[%s]" % which
+            vc2 = intvc.MultiLoopVC(Sep.reconstruct_params, lambda interp, env=env: dict(env), [inv1, inv2], post_r, name=nm, definitions=defs,
+                                    requires=class_inv + [newT.len == rank(n), newT.len >= 0] + extra)
+            res2 = vc2.run()
+            _record(c, res2)
+            c.check(nm + ".both_loops_cut_and_every_exit_checked",
+                    vc2.loops_cut == 2 and set(vc2.exits) <= {"raise", "return"} and "return" in vc2.exits, detail="%s %s" % (vc2.loops_cut, vc2.exits))
         c.prove("canary", z3.BoolVal(False), kind="canary")
     return kit.run_unit("separator_any_length", run)
 
